@@ -483,6 +483,28 @@ def sandwich_family():
                 yield b
 
 
+def three_store_family():
+    """Three stores with distinct constant values: "may overlap" is not transitive, so the third store can depend on
+    two earlier stores that are independent of each other (0x00 / 0x28 / 0x14; keys 0 / 1 / x) and every pair needs
+    its own ordering edge."""
+    addrs = [C(0), C(0x14), C(0x20), C(0x28), C(0x40), X, ("ADD", C(32), X), Y]
+    vals = [C(0xa1a1), C(0xb2b2), C(0xc3c3)]
+    kinds = [("MSTORE", "MSTORE", "MSTORE"), ("MSTORE", "MSTORE", "MSTORE8"), ("MSTORE8", "MSTORE", "MSTORE"),
+             ("MSTORE", "MSTORE8", "MSTORE")]
+    seen = set()
+    for ks in kinds:
+        for a in itertools.product(addrs, repeat=3):
+            b = compile_copy([(ks[i], a[i], vals[i]) for i in range(3)], 3)
+            if b is not None and tuple(b) not in seen:
+                seen.add(tuple(b))
+                yield b
+    for k in itertools.product(KEYS4 + [("ADD", C(1), X)], repeat=3):
+        b = compile_copy([("SSTORE", k[i], vals[i]) for i in range(3)], 3)
+        if b is not None and tuple(b) not in seen:
+            seen.add(tuple(b))
+            yield b
+
+
 def live_loads_family():
     """Two (or three) loaded values that feed a later store and are still live afterwards (left on the stack)."""
     loads = [("MLOAD", X), ("MLOAD", Y), ("SLOAD", X), ("SLOAD", Y), ("KECCAK256", X, C(32)), ("MLOAD", C(0)),
